@@ -1,10 +1,12 @@
 use crate::core::Property;
 
+pub mod c01;
 pub mod c02;
 pub mod c03;
 pub mod c06;
 pub mod c07;
 pub mod c08;
+pub mod c09;
 pub mod c10;
 pub mod c15;
 pub mod c17;
@@ -18,6 +20,7 @@ pub mod heads;
 
 pub fn all() -> Vec<Box<dyn Property>> {
     vec![
+        Box::new(c01::P),
         Box::new(c02::P),
         Box::new(c03::P),
         Box::new(c04::P),
@@ -25,6 +28,7 @@ pub fn all() -> Vec<Box<dyn Property>> {
         Box::new(c06::P),
         Box::new(c07::P),
         Box::new(c08::P),
+        Box::new(c09::P),
         Box::new(c10::P),
         Box::new(c15::P),
         Box::new(c17::P),
